@@ -93,11 +93,29 @@ def generate(rng, tier):
         for t in NESTED_TEXTS:
             n += 1
             yield nested_scenario('nest%d' % n, place, t)
+    # a parse that aborts in the middle of an item leaves nothing behind IN THE CONTEXT either: two contexts with the
+    # same history, one of which additionally saw the aborted text, answer the next texts alike
+    for ab in ABORTED_ITEMS:
+        for fu in FOLLOW_UPS:
+            n += 1
+            lines = gen.prelude(SCHEMA, 0) + ['init 5 0 0'] + FILES
+            for c in (0, 5):
+                lines.append('parse_buf %d ' % c + hx(b'il = {7, 8}\ns = "a"\nsec { a = 2 }\nmm { a = 3 }\n'))
+            lines.append('parse_buf 0 ' + hx(ab))
+            first = len(lines)
+            for c in (0, 5):
+                lines += ['parse_buf %d ' % c + hx(fu), 'dump %d' % c]
+            yield Scn('res%d' % n, lines, {'class': 'residue', 'hist': ['abort-item'], 'first': first, 'kind': 'residue', 'ab': ab, 'fu': fu})
     r = rng.fork('C08')
     for _ in range(100 if tier == 'quick' else 2000):
         n += 1
         yield scenario('r%d' % n, [r.pick(names) for _ in range(4 + r.below(8))])
 
+
+# texts that abort before anything was stored (a complete item before the abort would legitimately stay)
+ABORTED_ITEMS = [b'il =', b'il = {', b'il = ,', b'il = {"unterminated', b'il +=', b'il += {', b's =', b's = "open', b'sec {', b'sec { a =',
+                 b'i', b'include(', b'include("good.conf"', b'il = /* open', b'old =', b'gone = {', b'il = }', b'il = = 1', b's = {']
+FOLLOW_UPS = [b'il += {5}\n', b'il = {6}\n', b'il += 4\ns = "b"\n', b'sec { a = 4 }\nmm { }\n', b'i = 1\n', b'gone += {2}\nold = 3\n']
 
 # ---- two live contexts at the same time: a function callback of the running parse parses a text into another context
 OUT = lambda fn: [Opt('int', b'a', 0, 0), Opt('int', b'b', 0, 0), Opt('int', b'c', 0, 0), Opt('int', b'd', 0, 0),
@@ -147,6 +165,19 @@ def probe_lines(scn, il):
 def oracle(scn, il):
     if not il or 'status=exit:0' not in il[-1] or 'san=-' not in il[-1]:
         return [('crash', '%s: %s' % (scn.id, il[-1] if il else 'no result'))]
+    if scn.meta.get('kind') == 'residue':
+        body = il[:-1]
+        f = scn.meta['first']
+        if len(body) < f + 4:
+            return [('no-result', scn.id)]
+        p0, d0, p5, d5 = body[f:f + 4]
+        # the internal "replace on the next store" bit and the "modified" marker (set when the `=` is read) are not
+        # values; everything else of the dump is compared
+        noR = lambda d: re.sub(r'\(opt (\S+) (\S+) (\d+) \d \d ', r'(opt \1 \2 \3 ? ? ', d)
+        if p0 != p5 or noR(d0[5:]) != noR(d5[5:]):
+            return [('residue:' + re.sub(r'[^a-z=+{]', '', scn.meta['ab'].decode('latin-1'))[:8], '%s: after the aborted text %r the text %r is read differently than without it:\n  %s\n  %s\n  %s\n  %s' % (
+                scn.id, scn.meta['ab'], scn.meta['fu'], p0[:160], d0[:400], p5[:160], d5[:400]))]
+        return []
     if scn.meta.get('kind') == 'nested':
         # the outer parse with a parse into another context running inside its callback == the same two parses one after
         # the other (contexts 2, 3): return code, diagnostics and values of both
@@ -185,7 +216,7 @@ def cross_oracle(scns, impl):
         base = probe_lines(base_scn, impl.get('baseline') or [])
     out = []
     for s in scns:
-        if s.id == 'baseline' or s.meta.get('kind') == 'nested':
+        if s.id == 'baseline' or s.meta.get('kind') in ('nested', 'residue'):
             continue
         got = probe_lines(s, impl.get(s.id) or [])
         if got != base:
